@@ -110,6 +110,17 @@ Definition conv2d (ls : list nat) (r c : Z) : option nat :=
          else Some (nth (Z.to_nat r1) (starts_of ls) 0 + Z.to_nat c1)%nat
        end.
 
+(* a[[r0,..],[c0,..]]: the two index vectors are paired the way NumPy pairs index arrays, by broadcasting:
+   element by element when equally long, a one-entry vector against every entry of the other
+   (_convert_from_2d: np.broadcast_arrays); any other pair of lengths raises *)
+Definition bpairs (rs cs : list Z) : option (list (Z * Z)) :=
+  if Nat.eqb (length rs) (length cs) then Some (combine rs cs)
+  else match rs, cs with
+       | _, [c] => Some (map (fun r => (r, c)) rs)
+       | [r], _ => Some (map (fun c => (r, c)) cs)
+       | _, _ => None
+       end.
+
 (* _data[_convert_from_2d(iis)] for a vector of (row, col) pairs: any bad pair makes the whole read raise *)
 Definition gather {A} (s : conc A) (pairs : list (Z * Z)) : option (list A) :=
   match map_opt (fun p => conv2d (lens s) (fst p) (snd p)) pairs with
@@ -180,7 +191,7 @@ Definition get_c {A} (s : conc A) (i : idx) : result A :=
                   | Some rows => Val (rows_c (ctor_nested rows))
                   end
   | Elem r c => flat_result (gather s [(r, c)])
-  | Pairs rs cs => if Nat.eqb (length rs) (length cs) then flat_result (gather s (combine rs cs)) else Err
+  | Pairs rs cs => match bpairs rs cs with Some ps => flat_result (gather s ps) | None => Err end
   | PairsScalar rs c => flat_result (gather s (map (fun r => (r, c)) rs))
   | ElemList r cs => flat_result (gather s (map (fun c => (r, c)) cs))
   | Sl2SS rsl csl =>
@@ -255,8 +266,10 @@ Definition get_s {A} (rows : list (list A)) (i : idx) : result A :=
   | Rows sl => if sl_ok sl then Val (sl_list rows sl) else Err
   | RowList rs => val_result (map_opt (get_item rows) rs)
   | Elem r c => flat_result (map_opt (fun p => elem_s rows (fst p) (snd p)) [(r, c)])
-  | Pairs rs cs => if Nat.eqb (length rs) (length cs)
-                   then flat_result (map_opt (fun p => elem_s rows (fst p) (snd p)) (combine rs cs)) else Err
+  | Pairs rs cs => match bpairs rs cs with
+                   | Some ps => flat_result (map_opt (fun p => elem_s rows (fst p) (snd p)) ps)
+                   | None => Err
+                   end
   | PairsScalar rs c => flat_result (map_opt (fun r => elem_s rows r c) rs)
   | ElemList r cs => flat_result (map_opt (fun c => elem_s rows r c) cs)
   | Sl2SS rsl csl => if sl_ok rsl && sl_ok csl
